@@ -31,6 +31,7 @@ type opRec struct {
 	arg      int
 	res      string
 	inv, ret int // ret == 0: pending
+	x        int64
 	steps    int // scheduler steps of the owning thread between inv and ret
 }
 
